@@ -1,96 +1,50 @@
 (* trash-empty: no purge without consent (C14), against every answer the environment can give. *)
 From TV Require Import Prelude.Str Prelude.PosixPath Codec.DateFmt Codec.TrashInfo Logic.Calendar Logic.Reply
-  Prog.Prog Cmd.Put Cmd.Scan Cmd.Empty Proofs.ProgProofs Proofs.ScanProofs.
+  Prog.Prog Cmd.Put Cmd.Scan Cmd.Empty Proofs.ProgProofs Proofs.PLogic Proofs.ScanProofs.
 
-(* ---- the read-only part of trash-empty issues no mutator and asks nothing ---- *)
-Definition quiet (o : op) (_ : res) : bool := negb (is_mutator o) && match o with Input _ | IsAtty => false | _ => true end.
-Definition nomut (o : op) (_ : res) : bool := negb (is_mutator o).
-
-Lemma quiet_scan o r : scan_op o = true -> quiet o r = true.
-Proof. destruct o; try discriminate; reflexivity. Qed.
-Lemma nomut_scan o r : scan_op o = true -> nomut o r = true.
+(* ---- --dry-run: no operation of any run is a mutator ---- *)
+Definition nomut (o : op) : Prop := is_mutator o = false.
+Definition NL := ops_logic nomut.
+Lemma nomut_scan o : scan_op o = true -> OKop NL o.
 Proof. destruct o; try discriminate; reflexivity. Qed.
 
-Section ReadOnly.
-Variable ok : op -> res -> bool.
-Hypothesis Hscan : forall o r, scan_op o = true -> ok o r = true.
-Hypothesis Hread : forall p r, ok (ReadText p) r = true.
-Hypothesis Hnow : forall r, ok Now r = true.
-Hypothesis Hlog : forall l e t r, ok (Log l e t) r = true.
-Hypothesis Hout : forall e t r, ok (Out e t) r = true.
+Ltac aret := first [apply (T_ret NL); exact I | apply (T_throw NL)].
 
-Lemma safe_entries_if_dir_exists p : safe ok (entries_if_dir_exists p) (fun l => forallb valid_name l = true).
-Proof.
-  unfold entries_if_dir_exists. eapply safe_bind; [apply safe_call_bool; intros; apply Hscan; reflexivity|].
-  intros e _. destruct e; [apply safe_listdir; intros; apply Hscan; reflexivity|apply safe_ret; reflexivity].
-Qed.
+Lemma dispose_dry o p : eo_dry_run o = true -> T NL (dispose o p) (fun _ => True).
+Proof. intros H. unfold dispose. rewrite H. apply (T_call_unit NL). reflexivity. Qed.
 
-Lemma safe_list_trashinfo td : safe ok (list_trashinfo td)
-  (fun l => forall p, In p l -> exists x, valid_name x = true /\ is_trashinfo_name x = true /\ p = join2 (join2 td s_info) x).
-Proof.
-  unfold list_trashinfo. eapply safe_bind; [apply safe_entries_if_dir_exists|].
-  intros es Hes. apply safe_ret. intros p Hp. apply in_map_iff in Hp. destruct Hp as [x [Hx Hin]].
-  apply filter_In in Hin. destruct Hin as [Hin Hti]. exists x. split; [|split; auto].
-  rewrite forallb_forall in Hes. apply Hes. exact Hin.
-Qed.
-
-Lemma safe_get_now_value env : safe ok (get_now_value env) (fun _ => True).
-Proof.
-  unfold get_now_value. destruct (env_get env s_TRASH_DATE) as [v|]; [|apply safe_call_date; intros; apply Hnow].
-  destruct (strptime_body v); [exact I|].
-  apply safe_seq; [apply safe_call_unit; intros; apply Hlog|apply safe_call_date; intros; apply Hnow].
-Qed.
-
-Lemma safe_ok_to_delete o p : safe ok (ok_to_delete o p) (fun _ => True).
-Proof.
-  unfold ok_to_delete. destruct (eo_days o) as [days|]; [|exact I].
-  eapply safe_bind with (Q' := fun _ => True).
-  - apply safe_catch.
-    + eapply safe_bind; [apply safe_call_str; intros; apply Hread|]. intros; exact I.
-    + intros e p0 He. destruct (is_OSError e); [inversion He; exact I|]. destruct e; inversion He; exact I.
-  - intros r _. destruct r as [contents|]; [|exact I].
-    eapply safe_bind; [apply safe_get_now_value|]. intros now _.
-    destruct (parse_deletion_date contents); [|exact I]. destruct (older_than days now d); exact I.
-Qed.
-End ReadOnly.
-
-(* ---- --dry-run ---- *)
-Lemma dispose_dry o p : eo_dry_run o = true -> safe nomut (dispose o p) (fun _ => True).
-Proof. intros H. unfold dispose. rewrite H. apply safe_call_unit. reflexivity. Qed.
-
-Lemma empty_trash_dir_dry o td : eo_dry_run o = true -> safe nomut (empty_trash_dir o td) (fun _ => True).
+Lemma empty_trash_dir_dry o td : eo_dry_run o = true -> T NL (empty_trash_dir o td) (fun _ => True).
 Proof.
   intros H. unfold empty_trash_dir.
-  eapply safe_bind; [apply safe_list_trashinfo; auto using nomut_scan|]. intros infos _.
-  apply safe_seq.
-  - apply safe_for_each. intros p _. unfold empty_one_info.
-    eapply safe_bind; [apply safe_ok_to_delete; auto using nomut_scan|]. intros b _. destruct b; [|exact I].
-    apply safe_seq; apply dispose_dry; exact H.
-  - eapply safe_bind; [apply safe_entries_if_dir_exists; auto using nomut_scan|]. intros es _.
-    apply safe_for_each. intros x _. unfold empty_orphan.
-    eapply safe_bind; [apply safe_call_bool; reflexivity|]. intros b _. destruct b; [exact I|apply dispose_dry; exact H].
+  eapply (T_bind NL); [apply (safe_list_trashinfo NL nomut_scan)|]. intros infos _.
+  apply (T_seq NL).
+  - apply (T_for_each NL). intros p _. unfold empty_one_info.
+    eapply (T_bind NL); [apply (safe_ok_to_delete NL); intros; reflexivity|]. intros b _. destruct b; [|aret].
+    apply (T_seq NL); apply dispose_dry; exact H.
+  - eapply (T_bind NL); [apply (safe_entries_if_dir_exists NL nomut_scan)|]. intros es _.
+    apply (T_for_each NL). intros x _. unfold empty_orphan.
+    eapply (T_bind NL); [apply (T_call_bool NL); reflexivity|]. intros b _. destruct b; [aret|apply dispose_dry; exact H].
 Qed.
 
-Lemma empty_handle_dry o u ev : eo_dry_run o = true -> safe nomut (empty_handle o u ev) (fun _ => True).
-Proof. intros H. destruct ev; simpl; try exact I. apply empty_trash_dir_dry; exact H. Qed.
+Lemma empty_handle_dry o u ev : eo_dry_run o = true -> T NL (empty_handle o u ev) (fun _ => True).
+Proof. intros H. destruct ev; simpl; try aret. apply empty_trash_dir_dry; exact H. Qed.
 
 Theorem dry_run_no_mutation_lemma o : eo_dry_run o = true ->
   all_runs (fun t _ => Forall (fun p => is_mutator (fst p) = false) t) (empty_main o).
 Proof.
-  intros H. eapply all_runs_mono; [|apply (safe_sound nomut (empty_main o) (fun _ => True))].
-  - intros t out [Ht _]. unfold trace_ok in Ht. eapply Forall_impl; [|exact Ht].
-    intros [op r]. unfold nomut. simpl. destruct (is_mutator op); [discriminate|reflexivity].
-  - unfold empty_main.
-    eapply safe_bind; [apply safe_call_bool; reflexivity|]. intros tty _.
-    apply safe_seq; [|exact I].
+  intros H. eapply all_runs_mono; [|apply (ops_sat_sound nomut (empty_main o) (fun _ => True))].
+  - intros t out [Ht _]. exact Ht.
+  - change (T NL (empty_main o) (fun _ => True)). unfold empty_main.
+    eapply (T_bind NL); [apply (T_call_bool NL); reflexivity|]. intros tty _.
+    apply (T_seq NL); [|aret].
     destruct (match eo_interactive o with Some b => b | None => tty end).
-    + eapply safe_bind.
-      * apply (safe_select_trash_dirs nomut nomut_scan (fun acc ev => Ret (acc ++ [ev])) (fun _ => True)); auto;
-        try (intros s ev _; exact I).
-      * intros evs _. eapply safe_bind; [apply safe_call_str; reflexivity|]. intros reply _.
-        destruct (parse_reply reply); [|exact I]. apply safe_for_each. intros ev _. apply empty_handle_dry; exact H.
-    + apply (safe_select_trash_dirs nomut nomut_scan (empty_handle o) (fun _ => True)); auto;
-      try (intros s ev _; apply empty_handle_dry; exact H).
+    + eapply (T_bind NL).
+      * apply (safe_select_trash_dirs NL nomut_scan (fun acc ev => Ret (acc ++ [ev])) (fun _ => True) (fun _ => True)); auto;
+        try (intros s ev _ _; aret).
+      * intros evs _. eapply (T_bind NL); [apply (T_call_str NL); reflexivity|]. intros reply _.
+        destruct (parse_reply reply); [|aret]. apply (T_for_each NL). intros ev _. apply empty_handle_dry; exact H.
+    + apply (safe_select_trash_dirs NL nomut_scan (empty_handle o) (fun _ => True) (fun _ => True)); auto;
+      try (intros s ev _ _; apply empty_handle_dry; exact H).
 Qed.
 
 (* ---- consent: the monitor of "no mutation before/without a yes" ---- *)
@@ -109,14 +63,19 @@ Definition consent_step (inter : option bool) (s : consent) (o : op) (r : res) :
     end
   end.
 
+(* the scan before the question neither mutates, nor asks, nor looks at the terminal *)
+Definition quiet (o : op) (_ : res) : bool := negb (is_mutator o) && match o with Input _ | IsAtty => false | _ => true end.
+Definition QL := asafe_logic (sstep quiet).
+Lemma quiet_scan o : scan_op o = true -> OKop QL o.
+Proof. intros H. apply accepted_sstep. intros r _. destruct o; try discriminate; reflexivity. Qed.
+
 Theorem consent_lemma o :
   all_runs (fun t _ => accepts (consent_step (eo_interactive o)) Unknown t <> None) (empty_main o).
 Proof.
   eapply all_runs_mono; [|apply (wp_sound (consent_step (eo_interactive o)) (empty_main o) (fun _ _ => True) (fun _ _ => True) Unknown)].
   - intros t out [s' [Ha _]]. rewrite Ha. discriminate.
   - unfold empty_main. apply wp_bind. apply wp_call_bool.
-    intros r Hv. destruct (valid_bool IsAtty r eq_refl Hv) as [[b Hr]|[n Hr]]; subst r.
-    2:{ exists Unknown. split; [reflexivity|exact I]. }
+    intros r Hv. destruct (valid_bool IsAtty r eq_refl Hv) as [b Hr]; subst r.
     eexists. split; [reflexivity|]. apply wp_bind.
     eapply wp_mono with (Q := fun _ _ => True) (E := fun _ _ => True); [intros; exact I|auto|].
     assert (Hask : wp (consent_step (eo_interactive o))
@@ -132,8 +91,9 @@ Proof.
       - auto.
       - intros op r Hq. unfold quiet in Hq. apply andb_true_iff in Hq. destruct Hq as [Hm Hin].
         unfold consent_step. destruct (is_mutator op); [discriminate|]. destruct op; try discriminate; try reflexivity.
-      - apply (safe_select_trash_dirs quiet quiet_scan (fun acc ev => Ret (acc ++ [ev])) (fun _ => True)); auto;
-        try (intros s ev _; exact I). }
+      - apply safe_of_asafe.
+        apply (safe_select_trash_dirs QL quiet_scan (fun acc ev => Ret (acc ++ [ev])) (fun _ => True) (fun _ => True)); auto;
+        try (intros s ev _ _; apply (T_ret QL); exact I). }
     destruct (eo_interactive o) as [[|]|] eqn:Hi; [exact Hask|apply wp_absorbing; reflexivity|].
     destruct b; [exact Hask|apply wp_absorbing; reflexivity].
 Qed.
